@@ -268,7 +268,7 @@ const HORIZON: usize = 64;
 async fn recv_msg(
     grx: &mut mpsc::UnboundedReceiver<GateMsg>,
 ) -> std::result::Result<Option<GateMsg>, tokio::time::error::Elapsed> {
-    tokio::time::timeout(std::time::Duration::from_secs(60), grx.recv()).await
+    tokio::time::timeout(std::time::Duration::from_secs(240), grx.recv()).await
 }
 
 async fn execute(t: &Template, it: &Item, work: &Path) -> Value {
@@ -393,7 +393,7 @@ async fn execute(t: &Template, it: &Item, work: &Path) -> Value {
                     finished.insert(d2, result);
                 }
                 _ => {
-                    fails.push(json!({"sig": format!("request_hangs:{}:{}", kind, prek), "what": format!("device {} did not come back from its {} request within 60 s (deadlock or hang)", dev, kind)}));
+                    fails.push(json!({"sig": format!("request_hangs:{}:{}", kind, prek), "what": format!("device {} did not come back from its {} request within 240 s (deadlock or hang)", dev, kind)}));
                     break;
                 }
             }
